@@ -34,6 +34,14 @@ def scLoop {α : Type} (n1 n2 n3 : Nat) (uc : List α) : List ((Nat × Nat × Na
 /-- both supercell constructors of crystal.py have the loop shape `scLoop` models (read off the AST on every run) -/
 theorem supercell_loop_shape : ChmpyVerif.Gen.supercellLoopShape = [1, 1] := by decide
 
+/-- `as_P1` is the 1×1×1 supercell (read off the AST) … -/
+theorem asP1_is_unit_supercell : ChmpyVerif.Gen.asP1IsUnitSupercell = 1 := by decide
+
+/-- … whose loop produces every unit-cell atom exactly once, in order, untranslated: the P1 description has the atoms of the
+unit cell as its asymmetric unit -/
+theorem scLoop_unit {α : Type} (uc : List α) : scLoop 1 1 1 uc = uc.map fun a => ((0, 0, 0), a) := by
+  simp [scLoop]
+
 /-- atom count scales with the number of cells in the supercell -/
 theorem scLoop_length {α : Type} (n1 n2 n3 : Nat) (uc : List α) :
     (scLoop n1 n2 n3 uc).length = n1 * n2 * n3 * uc.length := by
